@@ -33,6 +33,9 @@ def gen_c08(rng):
             old = rng.choice(dec)
             new = f"Copy{k}"
             doc.append(["copydecay", new, old])
+            if rng.random() < 0.3:
+                # the source defined again further down with other lines: the first block is OLD's table, and the copy's
+                doc.append(["decay", old, [["0.25", ["gamma", "gamma"], False, ["named", "PHSP", None]], ["0.75", ["e+", "e-"], True, ["named", "PHSP", None]]]])
             if rng.random() < 0.7:
                 doc.append(["chargeconj", new, f"anti-Copy{k}"])
                 doc.append(["cdecay", f"anti-Copy{k}"])
